@@ -13,6 +13,9 @@ Round 4: the parent setter rejects the task itself / a descendant / a dependency
 write and never raises after one (shared with C11); the child list object is shared with every facade (own alias-aware copy of the
 shared-list rule in c05_util); all_children order decided for recursive generators / accumulators (nested, static, method) and for
 explicit work lists (which end is popped, which end and in which order the children are pushed).
+Round 5: `_unique_tasks(..)` / a running `seen` set of id(t) is the identity de-duplication; a receiving tree built as
+[receiver] + root.all_children (root task missing) is refuted; _collect_subtree as a work list; members_listed_once (an append of
+argument elements into a child list needs `not in`, the argument list is never spliced into the shared list as it is).
 Not decided: a memoised all_children whose invalidation looks complete (UNDECIDED); id tests written with running `picked`
 sets or other idioms the evaluator does not model (UNDECIDED).
 """
@@ -86,6 +89,12 @@ def check(ctx):
                "leaves stale views whose later move/sort publishes an outdated list as the children of the task - tasks re-enter the tree "
                "without any id check", floor=4)
     ctx.guarded(o, lambda o: __import__('rules.c05_util', fromlist=['shared_list']).shared_list(ctx, o))
+
+    o = ctx.ob('members_listed_once', 'R3',
+               "a task named twice in an argument (children assignment, move) is put into the child list once: direct appends are guarded "
+               "by `not in`, the argument list is never spliced into the shared list as it is (WBS.tasks lists every member exactly once)",
+               floor=1)
+    ctx.guarded(o, lambda o: __import__('rules.c05_util', fromlist=['listed_once']).listed_once(ctx, o))
 
     o = ctx.ob('receiving_tree_scope', 'R8',
                "the receiving tree is the whole WBS: _find_root returns the WBS root task of an attached task (task.wbs._root()), and "
